@@ -272,10 +272,13 @@ pub fn decode(bytes: &[u8]) -> Result<RawView, String> {
                     ops.push(r.read().map_err(|e| e.to_string())?);
                 }
                 let mut f = RawFunc { type_idx: 0, marker: None, sites: vec![], n_ops: ops.len(), locals };
-                if ops.len() >= 2 {
-                    if let (Operator::I32Const { value }, Operator::Drop) = (&ops[0], &ops[1]) {
+                // the identity marker: normally the first two instructions; code injected at function
+                // entry may sit in front of it, so the first marker anywhere in the body counts
+                for w in ops.windows(2) {
+                    if let (Operator::I32Const { value }, Operator::Drop) = (&w[0], &w[1]) {
                         if *value >= FN_MARK && *value <= FN_MARK + MARK_SPAN {
                             f.marker = Some((*value - FN_MARK) as u32);
+                            break;
                         }
                     }
                 }
